@@ -53,6 +53,11 @@ class States:
                         out.add(name)
                 return frozenset(out)
             return None
+        if isinstance(expr, ast.Call) and src(expr.func) in ('frozenset', 'set', 'tuple', 'list') and len(expr.args) == 1 and not expr.keywords:
+            return self.const_set(expr.args[0])
+        if isinstance(expr, ast.BinOp) and isinstance(expr.op, (ast.BitOr, ast.Add)):
+            a, b = self.const_set(expr.left), self.const_set(expr.right)
+            return a | b if a is not None and b is not None else None
         if isinstance(expr, ast.Call) and src(expr.func) == 'range' and len(expr.args) == 2:
             lo, hi = self.int_of(expr.args[0]), self.int_of(expr.args[1])
             if lo is None or hi is None:
